@@ -472,13 +472,18 @@ class VUndef(V):
 def typeof(v):
     if isinstance(v, (VInt, VReal, VBool, VStr, VNone)):
         return v.t
+    if type(v).__name__ == "VDyn":
+        return v.t
     if isinstance(v, (VUn, VOpt, VRec, VTuple, VSeq, VMap, VSet)):
         return v.t
     raise TypeError("value of %s has no encodable type" % type(v).__name__)
 
 
 def unwrap(v, t):
-    """V -> z3 expression of sort t.sort() (with coercions int->float, x->Optional[x])."""
+    """V -> z3 expression of sort t.sort() (with coercions int->float, x->Optional[x], JSON-like -> Dyn)."""
+    if t.name == "Dyn":
+        from .dyn import to_dyn
+        return to_dyn(v)
     if isinstance(t, TOpt):
         if isinstance(v, VNone):
             return t.none()
@@ -539,6 +544,8 @@ class TypeEnv:
     def __init__(self):
         self.named = {"int": TInt, "float": TReal, "Real": TReal, "bool": TBool, "str": TStr,
                       "None": TNone}
+        from .dyn import TDyn
+        self.named["Dyn"] = TDyn
 
     def declare(self, name, t):
         self.named[name] = t
